@@ -78,7 +78,11 @@ def main(tier, seed):
         bins[prof] = b
     docs = runner.parse_sources(FILES)
     # 1. differential validation on concrete sequences
-    seqs = [random_seq(rng, rng.randint(1, 6)) for _ in range(30 if tier == 'quick' else 200)]
+    seqs = []
+    for _ in range(30 if tier == 'quick' else 200):
+        sq = random_seq(rng, rng.randint(1, 6))
+        if sq not in seqs:          # duplicates would be counted as two paths of one job
+            seqs.append(sq)
     nat = native(bins['release'], seqs)
     agg = runner.explore_jobs(DRV[0], DRV[1], docs, [dict(len=len(s), cmds=s) for s in seqs], {'seed': seed}, 4, 200)
     rep.absorb(agg)
